@@ -50,6 +50,9 @@ RUNS = {
     "C19": [
         {"name": "K8-readdir", "mode": "k19", "budget": (250, 6000), "nontrivial": r"pages=([3-9]|\d\d)", "keyfn": "generic"},
     ],
+    "C03": [
+        {"name": "K6-client-server", "mode": "kcs", "budget": (2400, 60000), "nontrivial": r" c0=", "keyfn": "kcs"},
+    ],
     "C02": [
         {"name": "K2-framing", "mode": "k2", "budget": (1500, 40000), "nontrivial": r"recv\d+=(msg|proto)", "keyfn": "k2"},
     ],
@@ -58,6 +61,27 @@ RUNS = {
 NOT_YET = {}
 
 PROPS = {
+    "C03": {
+        "level_text": "Proof + regenerated obligations: every method uses only request types its negotiated version defines (all methods x all "
+                      "versions), the newer types as soon as allowed; uid/gid dropped below version 3 and unchanged from 3 on; ExtractErrno returns an "
+                      "errno found in the chain unchanged, else the sentinel mapping, else EIO; over the regenerated tables of every T-message literal "
+                      "in client_file.go and every backend call in handlers.go: each stub addresses the receiver's fid and fills exactly the table's "
+                      "fields from its parameters, and each handler passes exactly those fields to the backend (param -> field -> argument composes to "
+                      "the identity). End-to-end reach/return for all 24 remote methods at versions 0..7 is decided by the K6 correspondence against "
+                      "the transparency monitor (Driver/KCS.lean), using the session model for the walk plumbing.",
+        "level_note": "Trusted: Lean kernel; Spec/Transparency.lean (hand-written expectation of field sources and call arguments, as source text: a "
+                      "renamed local variable breaks the obligation without breaking the property); the extractor's collection of composite literals "
+                      "and File-method calls; Client/Stub.lean. Tie: K6-client-server - a real Client and Server over socketpairs with a frame tap, a "
+                      "recording backend returning values and error values of 9 kinds (linux/syscall errno, wrapped, *os.PathError, os.Err*, opaque); "
+                      "compared: backend call log with all arguments, values/errors returned to the caller, request types and fields on the wire.",
+        "rule": "kcs: per case a negotiated version 0..7, a fresh client File of the kind/open state the method needs, random arguments (full-range "
+                "ints, flags, modes incl. type/setuid bits, uid/gid sentinels, 64-bit offsets, lock parameters, names and targets as arbitrary "
+                "bytes), a quarter of the calls with every backend call failing with a random error value. 25 methods incl. SetXattr/RemoveXattr "
+                "(local ENOSYS). Single-chunk I/O (chunking is C11), zero- or one-component walks (multi-step walks are K4). Non-trivial: the "
+                "backend was reached.",
+        "assumptions": ["Renamed notifications are C08's business and are not compared here"],
+        "trusted_base": ["Spec/Transparency.lean", "Client/Stub.lean", "Driver/KCS.lean (the monitor)"],
+    },
     "C19": {
         "level_text": "Proof: all three file systems number entries 1,2,... in a fixed order and return entries offset+1..offset+count; the paging loop "
                       "(next offset = Offset of the last entry) composed with the server's cut to whole entries within min(count, msize-11) bytes is "
@@ -327,7 +351,13 @@ def key_k4(m):
     return "k4:typ%s:%s" % (t.group(1) if t else m["lhs"].split(" ")[0], k)
 
 
-KEYFNS = {"k1": key_k1, "k2": key_k2, "k4": key_k4}
+def key_kcs(m):
+    t = re.search(r" m=(\w+)", m["lhs"])
+    toks = m["impl_only"] + m["model_only"] + ["?"]
+    return "kcs:%s:%s" % (t.group(1) if t else "?", re.sub(r"\d+", "", toks[0].split("=")[0]))
+
+
+KEYFNS = {"k1": key_k1, "k2": key_k2, "k4": key_k4, "kcs": key_kcs}
 
 
 def monitor_lifecycle(lines):
